@@ -647,6 +647,12 @@ Definition live_mpd (e : env) (a : asset) (c : cfg) (mpdName : string) (nowMS : 
                    | Some st => if i64 (st * 1000) <? nowMS then Some (i64 (st * 1000)) else None
                    | None => None end in
     let endMS := match stopped with Some s => s | None => nowMS end in
+    (* the Location element: every URL part from index 1 on that starts with "stoprel_" is rewritten
+       with *cfg.StopTimeS - also parts behind the configuration (asset path, MPD name), which were
+       never parsed; C08-location-parts.diff restricts the rewriting to the configuration parts *)
+    if c_addLocation c && match c_stopS c with None => true | Some _ => false end &&
+       existsb (String.prefix "stoprel_") (if fx_location fx then takeZ (c_contentIdx c - 1) (dropZ 1 (c_parts c)) else dropZ 1 (c_parts c))
+    then HPanic "app.LiveMPD: nil dereference" else
     if a_loopMS a =? 0 then HPanic "app.calcWrapTimes: integer divide by zero" else
     let startMS := i64 (c_startS c * 1000) in
     let st0 := i64 (endMS - i64 (tsbd * 1000000000) / 1000000) in
